@@ -203,6 +203,12 @@ def stream_monitor(rec, case):
         _, _, _, text, a, b = h
         orig = text[a:b]
         lab = n.obfuscation
+        if lab in ("unescape.xml", "function.chr", "function.unescape", "codec.uft-16") and len(case.data) <= 200:
+            # the relation to the replaced text must survive the ways a caller hands a finding on (copy, deepcopy, pickle)
+            ok, bad = rec.guard("C14.total", w, case.size, trees.copies_keep_context, n)
+            if ok and bad:
+                rec.violation("C14.relation-survives-copy", f"{lab}|copy-loses-replaced-text", w,
+                              f"{lab} node {core.short(n.value, 40)}: after {bad} the copy no longer reports the text it replaced ({core.short(n.original, 60)})", case.size)
         if lab == "unescape.xml":
             rec.count("transitions")
             runs = codec_ref.xml_runs(orig)
